@@ -19,8 +19,10 @@ FAMILIES = ("IO II IF IU UO UU UF UI LO LL LF LQ QO QQ QF QL "
             "OO OI OU OL OQ fs").split()
 
 FLAVOURS = {
-    'plain': ['-O1', '-g', '-DBTREES_VERIF=1'],
-    'asan': ['-O1', '-g', '-fsanitize=address,undefined',
+    # plain = as shipped (distutils builds extensions with -DNDEBUG: assert() compiled out); the asan
+    # flavour keeps the assertions (-UNDEBUG), so both behaviours of an assert are explored
+    'plain': ['-O1', '-g', '-fno-strict-overflow', '-DNDEBUG', '-DBTREES_VERIF=1'],
+    'asan': ['-O1', '-g', '-fno-strict-overflow', '-fsanitize=address,undefined',
              '-fno-sanitize-recover=all', '-fno-omit-frame-pointer',
              '-UNDEBUG', '-DBTREES_VERIF=1'],
 }
